@@ -37,8 +37,24 @@ def gen_T20():
          'IrcCallback.__firewalled__[callPrecedence] changed: %r' % fwd.get('callPrecedence'))
     cp = find_def(it, 'callPrecedence', 'IrcCallback')
     asserts = [n for n in ast.walk(cp) if isinstance(n, ast.Assert)]
-    need([_norm(a.test) for a in asserts] == ['self not in after', 'self not in before'],
-         'IrcCallback.callPrecedence asserts changed')
+    # fix C20.F23: no assert here any more (the firewall would swallow it); Irc._sortCallbacks rejects a self-reference
+    need(asserts == [], 'IrcCallback.callPrecedence has asserts again (they are swallowed by the firewall): %r'
+         % [_norm(a.test) for a in asserts])
+    sc = find_def(it, '_sortCallbacks', 'Irc')
+    sa = [_norm(a.test) for a in ast.walk(sc) if isinstance(a, ast.Assert)]
+    need(sorted(sa) == ['cb not in after', 'cb not in before', 'len(cbs) == len(self.callbacks)'],
+         'Irc._sortCallbacks asserts changed: %r' % sa)
+    # fix C20.F22: addCallback = assert unique name; append; try: _sortCallbacks() except Exception: remove(callback); raise
+    ac = find_def(it, 'addCallback', 'Irc')
+    body = [n for n in ac.body if not (isinstance(n, ast.Expr) and isinstance(n.value, ast.Constant))]
+    need(len(body) == 3 and _norm(body[0]) == 'assert not self.getCallback(callback.name())'
+         and _norm(body[1]) == 'self.callbacks.append(callback)' and isinstance(body[2], ast.Try),
+         'Irc.addCallback shape changed')
+    t = body[2]
+    need([_norm(x) for x in t.body] == ['self._sortCallbacks()'] and len(t.handlers) == 1
+         and _norm(t.handlers[0].type) == 'Exception'
+         and [_norm(x) for x in t.handlers[0].body] == ['self.callbacks.remove(callback)', 'raise']
+         and not t.orelse and not t.finalbody, 'Irc.addCallback try/except shape changed')
     # --- the Owner guard of unload / reload
     guards = []
     for name in ('unload', 'reload'):
@@ -48,13 +64,25 @@ def gen_T20():
              'Owner.%s no longer starts with the strEqual(name, self.name()) guard' % name)
         need(isinstance(ifs[0].body[-1], ast.Return), 'Owner.%s guard does not return' % name)
         guards.append(name)
-    # reload: which exceptions restore the removed callbacks
+    # reload (fixes C20.F21 import part, C20.F24): sys.modules.get; the import phase alone is in the try;
+    # ImportError -> put back + irc.error; Exception -> put back + raise; else: die() + loadPluginClass
     f = find_def(ot, 'reload', 'Owner')
+    src_ = _norm(f)
+    need('sys.modules.get(callbacks[0].__module__)' in src_ and 'sys.modules[callbacks[0].__module__]' not in src_,
+         'Owner.reload: module lookup is not sys.modules.get(...)')
     trys = [n for n in ast.walk(f) if isinstance(n, ast.Try)]
-    need(len(trys) == 1 and len(trys[0].handlers) == 1, 'Owner.reload: expected one try/except')
-    h = trys[0].handlers[0]
-    need(h.type is not None and _norm(h.type) == 'ImportError', 'Owner.reload except clause changed: %s'
-         % (_norm(h.type) if h.type else 'bare'))
+    need(len(trys) == 1 and len(trys[0].handlers) == 2, 'Owner.reload: expected one try with two handlers')
+    t = trys[0]
+    need([_norm(h.type) if h.type else 'bare' for h in t.handlers] == ['ImportError', 'Exception'],
+         'Owner.reload except clauses changed')
+    readd = 'for callback in callbacks:\n    irc.addCallback(callback)'
+    need(_norm(t.handlers[0].body[0]) == readd and _norm(t.handlers[1].body[0]) == readd
+         and _norm(t.handlers[1].body[-1]) == 'raise', 'Owner.reload handlers no longer put the callbacks back')
+    tb = ' '.join(_norm(x) for x in t.body)
+    need('loadPluginModule' in tb and 'die()' not in tb and 'loadPluginClass' not in tb,
+         'Owner.reload: the try body is no longer the import phase alone')
+    eb = ' '.join(_norm(x) for x in t.orelse)
+    need('callback.die()' in eb and 'plugin.loadPluginClass(irc, module)' in eb, 'Owner.reload: else clause changed')
     out = 'Definition OWNER_NAME : list N := %s.\n' % cstr('Owner')
-    out += 'Definition RELOAD_RESTORES_ON_IMPORTERROR_ONLY : bool := true.\n'
+    out += 'Definition RELOAD_RESTORES_ON_IMPORT_FAILURE : bool := true.\n'
     return 'plugins/Owner/plugin.py, plugins/Misc/plugin.py, src/irclib.py', out
